@@ -11,7 +11,7 @@ from sa.fd import Sym
 from sa.pm import FuncInfo, call_name, norm, self_attr, walk_local_ordered
 from sa.report import Ob, rule
 
-from .common import find_locals, ob, strip_ret, traces, xnorm
+from .common import attr_stores, find_locals, ob, strip_ret, traces, xnorm
 
 BRQ = 'zeroconf._services.browser.generate_service_query'
 INQ = 'zeroconf._services.info.ServiceInfo._add_question_with_known_answers'
@@ -184,6 +184,33 @@ def lookup_history_obligations(ctx: Any, R: str, eff: Any) -> List[Ob]:
             got = {tuple(x for x in strip_ret(t)) for t in oc}
             want = ('ASK',) if qu else (('CONSULT',) if sup else ('CONSULT', 'RECORD', 'ASK'))
             obs.append(ob(R, f, f'lookup: QU={qu} history suppresses={sup}', f'effects {want}', got == {want}, f'got {sorted(got)} undecided {und}'))
+    # the question that is asked carries the QU bit exactly when the round is a QU round, and is followed by every known answer
+    # (each handed to the builder with the time of the round, so that it is written with its remaining TTL)
+    def eff_q(node: Any, evl: Any) -> List[Any]:
+        out = []
+        if node.kind == 'stmt':
+            for t_, st_ in attr_stores(node.ast):
+                if t_.attr in ('unicast', 'unique') and isinstance(st_, ast.Assign):
+                    v_ = evl.ev(st_.value)
+                    out.append(('QUBIT', v_ if v_ in (True, False) else norm(st_.value)))
+        for c in fd.node_calls(node, evl):
+            if call_name(c) == 'add_question':
+                out.append('ASK')
+            if call_name(c) in ('add_answer_at_time', 'add_answer') and node.in_loop:
+                out.append(('KNOWN', tuple(norm(a) for a in c.args)))
+        return out
+
+    p_now = f.params[5]
+    for qu in (True, False):
+        recs = [fd.Sym('known-1')]
+        atoms3 = {p_qu: qu, p_skip: False, '.suppresses()': False, '.is_stale()': False, '.is_expired()': False}
+        for r_ in sorted({call_name(c) for c in walk_local_ordered(f.node) if isinstance(c, ast.Call) and isinstance(c.func, ast.Attribute) and call_name(c) in ('get_all_by_details', 'async_all_by_details')}):
+            atoms3[f'.{r_}()'] = recs
+        oc3, und3 = traces(ctx, f, atoms3, eff_q, loop_bound=1, for_iter=lambda n, e: True)
+        seqs = {tuple(x for x in strip_ret(t) if x == 'ASK' or isinstance(x, tuple) and x[0] in ('QUBIT', 'KNOWN')) for t in oc3}
+        bit_ok = all(([x for x in sq if isinstance(x, tuple) and x[0] == 'QUBIT'] == ([('QUBIT', True)] if qu else [])) or ([x for x in sq if isinstance(x, tuple) and x[0] == 'QUBIT'] == [('QUBIT', qu)]) for sq in seqs)
+        known_ok = all(any(isinstance(x, tuple) and x[0] == 'KNOWN' and len(x[1]) >= 2 and x[1][1] == p_now for x in sq) and 'ASK' in sq and sq.index('ASK') < min(i_ for i_, x in enumerate(sq) if isinstance(x, tuple) and x[0] == 'KNOWN') for sq in seqs if sq) and bool(seqs) and all(sq for sq in seqs)
+        obs.append(ob(R, f, f'lookup: QU={qu}, one fresh record cached', f'the question is asked with the QU bit {"set" if qu else "clear"} and followed by the known answer, written at the time of the round', bit_ok and known_ok and not und3, f'sequences {sorted(map(str, seqs))[:3]}; undecided {und3}'))
     # `omitting questions whose answers it already holds` -- and only those: with the omit flag on, the question is left out iff
     # the cache holds a record of that name / type / class that is still good as a known answer (not stale).  Records that
     # are cached but stale (expired and waiting for the purge, or past half their TTL) are not answers the lookup holds: a
